@@ -54,6 +54,11 @@ impl Fnv {
         self.bytes(s.as_bytes());
         self.bytes(&[0xff]);
     }
+    pub fn hash_str(s: &str) -> u64 {
+        let mut h = Fnv::new();
+        h.bytes(s.as_bytes());
+        h.0
+    }
     pub fn u64(&mut self, v: u64) {
         self.bytes(&v.to_le_bytes());
     }
